@@ -457,3 +457,6 @@ func sortedKeys[V any](m map[string]V) []string {
 	sort.Strings(ks)
 	return ks
 }
+
+// CaseIndex returns the index of the case being run within its family.
+func (c *Ctx) CaseIndex() int { return c.curIndex }
